@@ -693,7 +693,10 @@ func (e *c25Env) ufragClause(k c25Core, lists [][]c25Ext, path string) {
 // goroutine barrier of ufragClause cannot be used; the judgement is one-sided and needs no barrier: a candidate
 // that must be added has to show up in the agent (polled, generous deadline), and once all of those are there a
 // candidate that must be dropped must not be there (presence is definitive, absence is not judged).
-var c25Stages = []string{"stable", "restart-offer-pending"}
+//
+//	session-and-media-ufrag  the first remote offer, not answered, carries a session-level a=ice-ufrag (another
+//	                       value) besides the media-level c25RemoteUfrag: both are ufrags of the description
+var c25Stages = []string{"stable", "restart-offer-pending", "session-and-media-ufrag"}
 
 func (e *c25Env) stagedAnswerer(stage string) *PeerConnection {
 	pc := vNewPC(e.t, e.apiV, nil)
@@ -712,6 +715,16 @@ func (e *c25Env) stagedAnswerer(stage string) *PeerConnection {
 			vkit.Fatalf(e.t, "SetRemoteDescription: %v", err)
 		}
 		answer()
+	case "session-and-media-ufrag":
+		d := e.offer
+		i := strings.Index(d.SDP, "m=")
+		if i < 0 {
+			vkit.Fatalf(e.t, "offer without a media section")
+		}
+		d.SDP = d.SDP[:i] + "a=ice-ufrag:SessLevelUfrag\r\na=ice-pwd:SessLevelPasswordSessLevelPassword\r\n" + d.SDP[i:]
+		if err := pc.SetRemoteDescription(d); err != nil {
+			vkit.Fatalf(e.t, "SetRemoteDescription (session- and media-level ufrag): %v", err)
+		}
 	case "restart-offer-pending":
 		if err := pc.SetRemoteDescription(e.older); err != nil {
 			vkit.Fatalf(e.t, "SetRemoteDescription (previous generation): %v", err)
